@@ -516,6 +516,41 @@ def cmd_check(a) -> int:
             shutil.rmtree(scratch, ignore_errors=True)
 
 
+def cmd_selftest(a) -> int:
+    """Large-sample determinism self-test: every run of a batch twice, in different fresh interpreters,
+    under a different worker count and PYTHONHASHSEED; all event-log digests must agree."""
+    prop = a.prop
+    tier = a.tier or "quick"
+    seed = a.seed if a.seed is not None else int(os.environ.get("VERIF_SEED", "0"))
+    scratch = os.path.join(core.scratch_root(), f"selftest-{prop}-{os.getpid()}")
+    shutil.rmtree(scratch, ignore_errors=True)
+    os.makedirs(scratch)
+    bad = 0
+    try:
+        for engine in CHECKS[prop]:
+            runs, wall = BUDGET[engine][tier]
+            runs = a.runs or runs
+            eng = engine_module(engine)
+            indices = list(range(runs))
+            if hasattr(eng, "fixed_plans"):
+                indices = [FIXED_BASE + j for j in range(len(eng.fixed_plans(tier)))] + indices
+            pa = spawn_workers(prop, engine, tier, seed, indices, 16, wall, scratch, "A", hashseed=0)
+            pb = spawn_workers(prop, engine, tier, seed, indices, 5, wall, scratch, "B", hashseed=12345)
+            la, ea = collect(pa, wall)
+            lb, eb = collect(pb, wall)
+            da = {ln["i"]: ln.get("event_log_sha256") for ln in la if "i" in ln}
+            db = {ln["i"]: ln.get("event_log_sha256") for ln in lb if "i" in ln}
+            common = sorted(set(da) & set(db))
+            diff = [i for i in common if da[i] != db[i]]
+            bad += len(diff) + len(ea) + len(eb)
+            print(f"[selftest {prop}/{engine}] runs compared={len(common)} mismatching={diff[:10]} errors={len(ea) + len(eb)}")
+            for e in (ea + eb)[:3]:
+                print("  ", e[:500])
+    finally:
+        shutil.rmtree(scratch, ignore_errors=True)
+    return 0 if bad == 0 else 2
+
+
 def write_evidence(prop, tier, seed, aggs, det_reports, wall_total, n_workers, violated):
     os.makedirs(os.path.join(VERIF, "evidence"), exist_ok=True)
     runs = sum(a["runs"] for a in aggs)
@@ -603,8 +638,13 @@ def main(argv=None) -> int:
     r.add_argument("--lenient", action="store_true")
     dg = sub.add_parser("digest")
     dg.add_argument("file")
+    st = sub.add_parser("selftest")
+    st.add_argument("prop")
+    st.add_argument("--tier", choices=["quick", "thorough"])
+    st.add_argument("--seed", type=int)
+    st.add_argument("--runs", type=int)
     a = ap.parse_args(argv)
-    return {"check": cmd_check, "worker": cmd_worker, "shrink": cmd_shrink, "replay": cmd_replay, "digest": cmd_digest}[
+    return {"check": cmd_check, "worker": cmd_worker, "shrink": cmd_shrink, "replay": cmd_replay, "digest": cmd_digest, "selftest": cmd_selftest}[
         a.cmd
     ](a)
 
